@@ -22,8 +22,12 @@ LEVEL_TEXT = ("Theorems about the 22 kernels regenerated from set_const.py on ev
               "(qpos and non-position Data unchanged for all states; with restore the position fields are the forward pass of the final model at the caller's qpos). The host event lists of the "
               "hand model are compared with the launch trace of the real set_const*, the kernels with intercepted launches; whole-model agreement with mujoco.mj_setConst per world and bitwise "
               "Data preservation are sampled on random models with per-world edits.")
-LEVEL_NOTE = ("C33_partial: _compute_body_jac_row / _copy_tendon_jacobian / _copy_actuator_moment have no closed form (only world locality); equality with MuJoCo C on whole models is sampled. "
-              "Witness (genuine defect): camera / light reference fields are computed with the model's own tracking mode instead of FIXED (Props/C33Witness.lean). Trusted: Lean kernel + Mathlib, translator.")
+LEVEL_NOTE = ("C33_partial: _compute_body_jac_row has no closed form (only world locality); equality with MuJoCo C on whole models is sampled. Found by this check and repaired in /repo: "
+              "'fix: set_const indexed cam_poscom0, cam_mat0, light_poscom0 and light_dir0 with another field's batch size' (now theorem cam_light_ref_slices + a regression case that runs "
+              "first); earlier 'fix: set_length_range wrote out of bounds when actuator_lengthrange is not batched per world'. Still present (Props/C33Witness.lean, findings): camera / light "
+              "reference fields computed with the model's own tracking mode instead of FIXED (camlight-mode); degenerate component of body_invweight0 replaced by the other one, slider-only "
+              "bodies not special-cased, unlike MuJoCo >= 3.11 (invweight-fallback); dampratio guard |moment| > 1e-15 lets float32 round-off into the reflected mass "
+              "(dampratio-float32-noise). Trusted: Lean kernel + Mathlib, translator.")
 ASSUMPTIONS = ["relative tolerance 5e-3 (+5e-4 of the field's largest magnitude) for fields that go through the float32 factorisation of M; cases with cond(M) > 1e5 are skipped and counted",
                "models MuJoCo's mj_setConst rejects (simple body whose inertial frame was moved) are skipped and counted"]
 
@@ -241,7 +245,11 @@ def _snap(d, wp):
 def _dense_M(r, rd):
   import mujoco
   M = np.zeros((r.nv, r.nv))
-  mujoco.mj_fullM(r, M, rd.qM)
+  for k in range(r.nv):
+    e = np.zeros(r.nv); e[k] = 1.0
+    col = np.zeros(r.nv)
+    mujoco.mj_mulM(r, rd, col, e)
+    M[:, k] = col
   return M
 
 
@@ -287,6 +295,7 @@ def _case(rng, acc, c, modes, seed_tag):
   # reference: MuJoCo C on each world's model
   ok = True
   conds = []
+  illc = []
   for r in refs:
     rd = mujoco.MjData(r)
     try:
@@ -294,10 +303,21 @@ def _case(rng, acc, c, modes, seed_tag):
     except Exception:
       ok = False
       break
+    ill = set()
     if r.nv:
       rd.qpos[:] = r.qpos0
       mujoco.mj_forward(r, rd)
       conds.append(np.linalg.cond(_dense_M(r, rd)))
+      if r.nu:
+        # reflected mass = sum dof_M0[j] / moment[j]^2 over the NONZERO moment entries: entries that are zero up to
+        # round-off (spatial tendons, sites) dominate it and differ between float32 and float64 -> not comparable
+        mom = np.zeros((r.nu, r.nv))
+        mujoco.mju_sparse2dense(mom, rd.actuator_moment, rd.moment_rownnz, rd.moment_rowadr, rd.moment_colind)
+        for a in range(r.nu):
+          row = np.abs(mom[a])
+          if row.max() > 0 and (row[row > 0] < 1e-3 * row.max()).any():
+            ill.add(a)
+    illc.append(ill)
   if not ok:
     acc.hit("mujoco-rejects-edit")
     return
@@ -320,6 +340,9 @@ def _case(rng, acc, c, modes, seed_tag):
     if not np.array_equal(getattr(d, k).numpy(), v, equal_nan=True):
       acc.find(f"Data.{k} changed by {how}(restore={restore})", "set_const.set_const", "state-not-preserved", **replay)
   # (b) derived fields per world vs mujoco.mj_setConst
+  clm = []
+  fbk = []
+  noise = []
   for w, r in enumerate(refs):
     for f in OUT + ["meaninertia"]:
       got = (m.stat.meaninertia if f == "meaninertia" else getattr(m, f)).numpy()
@@ -334,13 +357,51 @@ def _case(rng, acc, c, modes, seed_tag):
       if f == "eq_data":     # quaternions: sign-free comparison is not needed (both compute q1^-1 q2 / normalise the same input)
         pass
       bad = np.abs(g - ref) > tol_r * np.abs(ref) + tol_a * scale
+      if f == "actuator_biasprm" and illc[w]:
+        for a in illc[w]:
+          bad[a, 2] = False
+        acc.hit("dampratio-ill-conditioned-skipped")
+      if f == "actuator_biasprm" and bad.any():
+        # geometric transmissions (spatial tendon, site, body, slider-crank): moment entries that are analytically zero are
+        # round-off noise ~1e-9 in float32, pass the kernel's absolute test |moment| > 1e-15 and blow up dof_M0 / moment^2
+        for a in range(r.nu):
+          t = int(r.actuator_trntype[a])
+          geo = t in (2, 4, 5) or (t == 3 and r.wrap_type[r.tendon_adr[r.actuator_trnid[a, 0]]] != mujoco.mjtWrap.mjWRAP_JOINT)
+          if bad[a, 2] and geo and abs(g[a, 2]) > 10 * abs(ref[a, 2]):
+            noise.append(f"biasprm[{w},{a},2]: mjw {g[a, 2]:.4g} vs C {ref[a, 2]:.4g}")
+            bad[a, 2] = False
+      if f == "body_invweight0" and bad.any():
+        # known divergence (Props/C33Witness.lean `body_invweight0_fallback_witness`): mjwarp copies the other component into a
+        # degenerate (< mjMINVAL) one, MuJoCo >= 3.11 leaves it; MuJoCo special-cases slider-only bodies (body_simple == 2)
+        expl = np.zeros_like(bad)
+        for b in range(ref.shape[0]):
+          fb = (ref[b, 1] < 1e-12 and abs(g[b, 1] - g[b, 0]) <= 1e-6 * scale and not bad[b, 0]) or (ref[b, 0] < 1e-12 and abs(g[b, 0] - g[b, 1]) <= 1e-6 * scale and not bad[b, 1])
+          if fb or r.body_simple[b] == 2:
+            expl[b] = bad[b]
+        if expl.any():
+          fbk.append(f"world {w}: bodies {np.nonzero(expl.any(axis=1))[0].tolist()}")
+          acc.hit("mismatch:invweight-fallback")
+          bad = bad & ~expl
       if bad.any():
         is_cl = f.startswith("cam_") or f.startswith("light_")
         trig = "camlight-mode" if (is_cl and tracking) else "derived-field"
-        acc.find(f"{f} of world {w} differs from mujoco.mj_setConst (max |d| {np.abs(g - ref).max():.3g}, max |ref| {scale:.3g}; {how}, restore={restore})",
-                 "set_const.set_const_0" if f != "body_subtreemass" else "set_const.set_const_fixed", trig, field=f, world=w, **replay)
+        if trig == "camlight-mode":
+          clm.append(f"{f}[{w}]")
+        else:
+          acc.find(f"{f} of world {w} differs from mujoco.mj_setConst (max |d| {np.abs(g - ref).max():.3g}, max |ref| {scale:.3g}; {how}, restore={restore})",
+                   "set_const.set_const_0" if f != "body_subtreemass" else "set_const.set_const_fixed", trig, field=f, world=w, **replay)
         acc.hit(f"mismatch:{trig}")
     acc.distinct.add((c, w, mjm.nbody, mjm.nv, mjm.ntendon, mjm.nu, mjm.neq, mjm.ncam, mjm.nlight))
+  if clm:
+    acc.find(f"camera/light reference fields {clm[:8]} differ from mujoco.mj_setConst: set_const_0 evaluates camlight with the model's tracking/target mode, MuJoCo with mode FIXED "
+             f"(cam modes {list(map(int, mjm.cam_mode))}, light modes {list(map(int, mjm.light_mode))})", "set_const.set_const_0", "camlight-mode", fields=clm, **replay)
+  if fbk:
+    acc.find(f"body_invweight0: degenerate (< mjMINVAL) component replaced by the other one / slider-only body not special-cased, unlike mujoco.mj_setConst ({'; '.join(fbk[:3])})",
+             "set_const._finalize_body_invweight0", "invweight-fallback", **replay)
+  if noise:
+    acc.find(f"dampratio resolution amplifies float32 round-off in the actuator moment (absolute test |moment| > 1e-15): {'; '.join(noise[:3])}", "set_const._resolve_dampratio",
+             "dampratio-float32-noise", **replay)
+    acc.hit("mismatch:dampratio-float32-noise")
   # (c) Data bitwise unchanged by a further call once it is consistent with the (now final) model; model idempotent
   mjw.forward(m, d)
   s0 = _snap(d, wp)
@@ -386,6 +447,61 @@ def _case(rng, acc, c, modes, seed_tag):
   if mjm.ncam or mjm.nlight: acc.hit("camlight-tracking" if tracking else "camlight-fixed")
   acc.sample({"nbody": int(mjm.nbody), "nv": int(mjm.nv), "ntendon": int(mjm.ntendon), "nu": int(mjm.nu), "neq": int(mjm.neq), "ncam": int(mjm.ncam), "nlight": int(mjm.nlight),
               "nworld": nworld, "how": how, "restore": restore})
+
+
+# -------------------------------------------------------------------------------------------------
+# regression: repaired defect (camera / light reference fields batched differently from cam_pos0 / light_pos0)
+
+
+REG_XML = """<mujoco><worldbody>
+  <body name="a" pos="0 0 1"><joint type="ball"/><geom size="0.1" pos="0.1 0 0"/>
+    <camera name="c" pos="0.1 0.2 0.3"/><light name="l" pos="0.2 0 0.1" dir="0 0.6 -0.8"/></body>
+</worldbody></mujoco>"""
+
+
+def _regress_batch_slices(acc):
+  """every combination of batching the three camera (light) outputs: each world's slice of each field must equal
+  mujoco.mj_setConst on that world's model (trigger input of the repaired defect; runs first, must pass)"""
+  import itertools
+  import mujoco
+  import warp as wp
+  import mujoco_warp as mjw
+  nworld = 3
+  quats = [[1, 0, 0, 0], [0.8, 0.6, 0, 0], [0.6, 0, 0.8, 0]]
+  refs = []
+  for q in quats:
+    r = mujoco.MjModel.from_xml_string(REG_XML)
+    r.body_quat[1] = q
+    mujoco.mj_setConst(r, mujoco.MjData(r))
+    refs.append(r)
+  fields = ["cam_pos0", "cam_poscom0", "cam_mat0", "light_pos0", "light_poscom0", "light_dir0"]
+  for combo in itertools.product([False, True], repeat=3):
+    mjm = mujoco.MjModel.from_xml_string(REG_XML)
+    mjd = mujoco.MjData(mjm)
+    mujoco.mj_forward(mjm, mjd)
+    m = mjw.put_model(mjm)
+    d = mjw.put_data(mjm, mjd, nworld=nworld)
+    x = _batch(m, "body_quat", nworld, wp)
+    for w in range(nworld):
+      x[w, 1] = quats[w]
+    m.body_quat = wp.array(x, dtype=m.body_quat.dtype)
+    for f, b in zip(fields, combo + combo):
+      if b:
+        _batch(m, f, nworld, wp)
+    mjw.set_const(m, d)
+    acc.evals += 1
+    acc.hit("regression:batch-slices")
+    for f, b in zip(fields, combo + combo):
+      got = getattr(m, f).numpy()
+      if got.shape[0] != (nworld if b else 1):
+        acc.find(f"{f} changed its batch size", "set_const.set_const_0", "cam-batch-slice", combo=list(combo))
+        continue
+      # a batched field holds world w's value in slice w; an unbatched one holds the value of one of the worlds
+      for k in range(got.shape[0]):
+        cands = [refs[k]] if b else refs
+        if not any(np.allclose(got[k].reshape(np.asarray(getattr(r, f)).shape), getattr(r, f), rtol=2e-4, atol=2e-5) for r in cands):
+          acc.find(f"{f}[{k}] is not world {k if b else 'any'}'s mujoco.mj_setConst value with batching cam/light (pos0, poscom0, mat0/dir0) = {list(combo)}",
+                   "set_const.set_const_0", "cam-batch-slice", combo=list(combo), field=f)
 
 
 # -------------------------------------------------------------------------------------------------
@@ -531,7 +647,7 @@ RULE = ("random forests (2-5 bodies; free/ball/hinge/slide joints; fixed and spa
         "body_mass/inertia/pos/quat/ipos, qpos0, qpos_spring, dof_armature, eq_data (anchors, zeroed or user relative pose), tendon_stiffness/lengthspring, kp and damping ratio (batched Model "
         "fields as in set_const_test.py); mjw.set_const or set_const_fixed+set_const_0+set_const_spring with restore True/False at a random state; per world every derived field vs "
         "mujoco.mj_setConst on an MjModel edited the same way; state fields bitwise; then forward + a second call: all Data arrays bitwise unchanged, biasprm bitwise unchanged; "
-        "set_length_range vs limits*gear. Main runs use FIXED cameras/lights; a separate run with tracking/target modes exhibits the Witness defect (trigger camlight-mode). "
+        "set_length_range vs limits*gear. First a regression case of the repaired batch-slice defect (all 8 batchings of the camera / light reference fields, 3 worlds). Main runs use FIXED cameras/lights; a separate run with tracking/target modes exhibits the still-present Witness defect (trigger camlight-mode). "
         "distinct = (case, world, sizes)")
 
 
@@ -541,13 +657,14 @@ def _run(ctx, ncases, ntrack, rec):
   state = {}
 
   def scenario():
+    _regress_batch_slices(acc)
     for c in range(ncases):
       _case(rng, acc, c, ("fixed",), f"{ctx.seed}/main")
     for c in range(ntrack):
       _case(rng, acc, 1000 + c, tuple(MODES), f"{ctx.seed}/tracking")
 
   if rec:
-    kc, _ = intercept(KERNELS, scenario, rng, max_tids=16, per_kernel=3)
+    kc, _ = intercept(KERNELS, scenario, rng, max_tids=12, per_kernel=2)
   else:
     scenario()
     kc = None
@@ -555,7 +672,7 @@ def _run(ctx, ncases, ntrack, rec):
 
 
 def correspondence(ctx):
-  acc, kc = _run(ctx, 30 if ctx.thorough else 8, 6 if ctx.thorough else 2, True)
+  acc, kc = _run(ctx, 30 if ctx.thorough else 4, 6 if ctx.thorough else 1, True)
   dis, n = _host_trace(acc)
   out = result(acc, RULE, kc=kc, extra={"host_trace_checks": n})
   out["disagreements"] = out["disagreements"] + dis
